@@ -121,3 +121,12 @@ Proof.
 Qed.
 Lemma w64_bound x : w64 x < W64.
 Proof. unfold w64. apply N.mod_lt. discriminate. Qed.
+
+Theorem eq_hash_coherent_proof a b :
+  fs_eq a b = true -> hash_fast a = hash_fast b /\ fs_compare a b = Eq /\ fs_compare b a = Eq.
+Proof.
+  unfold fs_eq, fs_compare. intros H. apply eqb_ln_eq in H. subst b. repeat split; apply lex_refl.
+Qed.
+
+(* non-trivial instances: a 75-byte string (two 32-byte chunks, one 8-byte chunk, three tail bytes) *)
+Definition demo_bytes : bytes := map (fun i => (N.of_nat i * 37 + 11) mod 256) (seq 0 75).
